@@ -78,7 +78,8 @@ func runC09(c *Ctx) {
 			days = append(days, start.AddDate(0, 0, c.rng.Intn(1461)))
 		}
 	}
-	days = append(days, time.Date(1, 1, 1, 0, 0, 0, 0, time.UTC), time.Date(1, 3, 31, 0, 0, 0, 0, time.UTC), time.Date(9999, 12, 31, 0, 0, 0, 0, time.UTC), time.Date(9998, 2, 28, 0, 0, 0, 0, time.UTC), time.Date(2000, 2, 29, 0, 0, 0, 0, time.UTC), time.Date(1900, 2, 28, 0, 0, 0, 0, time.UTC), time.Date(2100, 3, 1, 0, 0, 0, 0, time.UTC))
+	days = append(days, time.Date(1, 1, 1, 0, 0, 0, 0, time.UTC), time.Date(1, 3, 31, 0, 0, 0, 0, time.UTC), time.Date(9999, 12, 31, 0, 0, 0, 0, time.UTC), time.Date(9998, 2, 28, 0, 0, 0, 0, time.UTC), time.Date(2000, 2, 29, 0, 0, 0, 0, time.UTC), time.Date(1900, 2, 28, 0, 0, 0, 0, time.UTC), time.Date(2100, 3, 1, 0, 0, 0, 0, time.UTC),
+		time.Date(1996, 2, 29, 0, 0, 0, 0, time.UTC), time.Date(2004, 2, 29, 0, 0, 0, 0, time.UTC), time.Date(1896, 2, 29, 0, 0, 0, 0, time.UTC), time.Date(2096, 2, 29, 0, 0, 0, 0, time.UTC), time.Date(2396, 2, 29, 0, 0, 0, 0, time.UTC), time.Date(1604, 2, 29, 0, 0, 0, 0, time.UTC))
 	offs := []string{"", "Z", "+05:30", "-11:00"}
 	var vals []tval
 	addv := func(v system.Any, err error, desc string) {
@@ -128,11 +129,30 @@ func runC09(c *Ctx) {
 	}
 	for _, x := range vals {
 		c.Count("value:" + x.kind + ":" + x.layout)
+		var picks [][2]string
 		for k := 0; k < nOps; k++ {
 			a, u := Pick(c.rng, c09Amounts), Pick(c.rng, c09Units)
 			if c.rng.Intn(10) < 7 {
 				u = c09Units[c.rng.Intn(16)] // mostly the calendar keywords
 			}
+			picks = append(picks, [2]string{a, u})
+		}
+		// leap days: whole-year and whole-month shifts that land in century years (1900 and 2100 are
+		// common years, 1600, 2000 and 2400 leap years) and in ordinary leap / common years
+		if x.kind != "time" && x.t.Month() == 2 && x.t.Day() == 29 && precRank(x.layout) >= 3 {
+			for _, target := range []int{1600, 1900, 2000, 2100, 2400, x.t.Year() + 4, x.t.Year() + 1, x.t.Year() + 100, x.t.Year() + 400} {
+				d := target - x.t.Year()
+				if d < 0 {
+					d = -d
+				}
+				if d == 0 || x.t.Year()+d > 9999 || x.t.Year()-d < 1 {
+					continue
+				}
+				picks = append(picks, [2]string{fmt.Sprint(d), "years"}, [2]string{fmt.Sprint(d * 12), "months"})
+			}
+		}
+		for _, pk := range picks {
+			a, u := pk[0], pk[1]
 			q, ok := mkq(a, u)
 			if !ok {
 				continue
